@@ -229,7 +229,8 @@ def run_scripts(cases):
             box.append(await one(variant, script))
 
         try:
-            vloop.run(main)
+            # backstop against a poll that never ends (the longest scripted session needs about 360 000: its server task polls every virtual millisecond through 60 s timeouts loop iterations)
+            vloop.run(main, max_iter=5000000)
             out.append(box[0])
         except vloop.Deadlock:
             out.append([{"e": "Hung"}])
